@@ -541,7 +541,7 @@ def _record_params(rng):
          "cmd": rng.randrange(len(CMDS)), "use_base": rng.choice([None, None, "rel", "abs"]),
          "exclude": rng.choice([None, None, None, ["*.pyc"], ["lib"], ["*.txt", "a"], ["src/"], ["**/x"]]),
          "lstrip": None, "metadir": rng.choice([None, None, "rel", "abs"]),
-         "stop_extra": rng.random() < 0.4}
+         "stop_extra": rng.random() < 0.4, "compact": rng.random() < 0.4}
     p["legacy_key"] = p["key"].startswith("rsa") and rng.random() < 0.6    # deprecated signing_key= / --key code path
     if dirs and rng.random() < 0.3:
         p["lstrip"] = [rng.choice(dirs) + "/"]
@@ -594,6 +594,10 @@ def _observe_link(env, K, res, expect_dsse, fname, returned=None):
     if res["kind"] in ("ret", "exit") and res["code"] in (None, 0):
         md, cls = load_class(path)
         obs["load"] = cls
+        if os.path.lexists(path):
+            # who may read the written file is part of the outcome (another user verifies it)
+            import stat
+            obs["file_mode"] = oct(stat.S_IMODE(os.lstat(path).st_mode))
         if md is not None:
             obs["payload"] = payload_dict(md)
             obs["vsig"] = vsig_class(md, K.pub)
@@ -664,7 +668,7 @@ def _case_record(ctx, seed):
         for dsse in (False, True):
             env.reset()
             res = call_tool(lambda: rl.in_toto_run(p["name"], p["materials"], p["products"], env.cmd, record_streams=True,
-                                                   use_dsse=dsse, metadata_directory=env.metadir,
+                                                   use_dsse=dsse, metadata_directory=env.metadir, compact_json=p.get("compact", False),
                                                    exclude_patterns=p["exclude"], base_path=env.base_path, lstrip_paths=p["lstrip"],
                                                    **kwkey()),
                             cwd=env.cwd)
